@@ -185,6 +185,10 @@ pub struct Arena {
     csupport: HashMap<u32, Rc<Vec<u32>>>,
     /// exact affine normal forms (filled lazily by smt::Emit)
     pub aff_cache: std::cell::RefCell<HashMap<u32, Rc<crate::smt::Aff>>>,
+    /// representatives of opaque (non-affine) nodes, keyed by a hash of (operator, affine normal forms of the operands):
+    /// syntactically different but affinely equal operands share one solver atom
+    pub canon: std::cell::RefCell<HashMap<u64, Vec<u32>>>,
+    iv_cache: HashMap<u32, (f64, f64)>,
 }
 
 pub const C_TRUE: u32 = 0;
@@ -681,6 +685,102 @@ impl Arena {
             CNode::Or(a, b) => format!("({}) || ({})", self.cshow(*a, depth), self.cshow(*b, depth)),
             CNode::SignBit(n) => format!("signbit({})", self.show(*n, depth)),
         }
+    }
+
+
+    /// outward-rounded interval enclosure of a term over the variables' boxes (coarse: no dependency tracking)
+    pub fn interval(&mut self, id: u32) -> (f64, f64) {
+        const INF: f64 = f64::INFINITY;
+        fn widen(lo: f64, hi: f64) -> (f64, f64) {
+            let w = |x: f64, up: bool| -> f64 {
+                if !x.is_finite() || x == 0.0 {
+                    return if x == 0.0 { if up { 5e-324 } else { -5e-324 } } else { x };
+                }
+                let e = x.abs() * 4.5e-16;
+                if up { x + e } else { x - e }
+            };
+            (w(lo, false), w(hi, true))
+        }
+        let mut stack = vec![id];
+        while let Some(&n) = stack.last() {
+            if self.iv_cache.contains_key(&n) {
+                stack.pop();
+                continue;
+            }
+            let kids: Vec<u32> = match &self.nodes[n as usize] {
+                Node::Un(_, a) | Node::Powi(a, _) | Node::Root(a, _) => vec![*a],
+                Node::Bin(_, a, b) => vec![*a, *b],
+                Node::Ite(_, a, b) => vec![*a, *b],
+                _ => vec![],
+            };
+            let missing: Vec<u32> = kids.iter().cloned().filter(|k| !self.iv_cache.contains_key(k)).collect();
+            if !missing.is_empty() {
+                stack.extend(missing);
+                continue;
+            }
+            let g = |k: &u32| self.iv_cache[k];
+            let r: (f64, f64) = match &self.nodes[n as usize] {
+                Node::Const(b) => {
+                    let x = f64::from_bits(*b);
+                    if x.is_nan() { (-INF, INF) } else { (x, x) }
+                }
+                Node::Rat(p, q) => widen(*p as f64 / *q as f64, *p as f64 / *q as f64),
+                Node::Var(v) => {
+                    let vi = &self.vars[*v as usize];
+                    (vi.lo.unwrap_or(-INF), vi.hi.unwrap_or(INF))
+                }
+                Node::Un(U::Neg, a) => {
+                    let (l, h) = g(a);
+                    (-h, -l)
+                }
+                Node::Un(U::Abs, a) => {
+                    let (l, h) = g(a);
+                    if l >= 0.0 { (l, h) } else if h <= 0.0 { (-h, -l) } else { (0.0, (-l).max(h)) }
+                }
+                Node::Un(U::Sqrt, a) => {
+                    let (l, h) = g(a);
+                    if h.is_finite() && h >= 0.0 { widen(l.max(0.0).sqrt(), h.sqrt()) } else { (0.0, INF) }
+                }
+                Node::Bin(B::Add, a, b) => {
+                    let ((l1, h1), (l2, h2)) = (g(a), g(b));
+                    widen(l1 + l2, h1 + h2)
+                }
+                Node::Bin(B::Sub, a, b) => {
+                    let ((l1, h1), (l2, h2)) = (g(a), g(b));
+                    widen(l1 - h2, h1 - l2)
+                }
+                Node::Bin(B::Mul, a, b) => {
+                    let ((l1, h1), (l2, h2)) = (g(a), g(b));
+                    let c = [l1 * l2, l1 * h2, h1 * l2, h1 * h2];
+                    if c.iter().any(|x| x.is_nan()) { (-INF, INF) } else { widen(c.iter().cloned().fold(INF, f64::min), c.iter().cloned().fold(-INF, f64::max)) }
+                }
+                Node::Bin(B::Div, a, b) => {
+                    let ((l1, h1), (l2, h2)) = (g(a), g(b));
+                    if l2 > 0.0 || h2 < 0.0 {
+                        let c = [l1 / l2, l1 / h2, h1 / l2, h1 / h2];
+                        if c.iter().any(|x| x.is_nan()) { (-INF, INF) } else { widen(c.iter().cloned().fold(INF, f64::min), c.iter().cloned().fold(-INF, f64::max)) }
+                    } else {
+                        (-INF, INF)
+                    }
+                }
+                Node::Bin(B::Min, a, b) => {
+                    let ((l1, h1), (l2, h2)) = (g(a), g(b));
+                    (l1.min(l2), h1.min(h2))
+                }
+                Node::Bin(B::Max, a, b) => {
+                    let ((l1, h1), (l2, h2)) = (g(a), g(b));
+                    (l1.max(l2), h1.max(h2))
+                }
+                Node::Ite(_, a, b) => {
+                    let ((l1, h1), (l2, h2)) = (g(a), g(b));
+                    (l1.min(l2), h1.max(h2))
+                }
+                _ => (-INF, INF),
+            };
+            self.iv_cache.insert(n, r);
+            stack.pop();
+        }
+        self.iv_cache[&id]
     }
 
     /// concrete evaluation of a term under an assignment of the variables
